@@ -46,6 +46,7 @@ type coordCase struct {
 	Big    bool // 32 MB bodies: more than the socket buffers hold (a slow client then blocks its handler)
 	NoCL   bool // the origin sends no Content-Length (chunked): a cut body is only seen as a read error
 	Vary   bool // every client sends the same Origin and the resource varies by it: the fill changes its key (ChangeKey)
+	Force  int64 // force_revalidate on the rule (seconds; 0: none): caps the lifetime the origin grants
 	Acts   []CoAct
 }
 
@@ -54,11 +55,14 @@ func (c coordCase) Sx() sx.V {
 	for _, a := range c.Acts {
 		acts = append(acts, sx.L(sx.S(a.Kind), sx.I(int64(a.I)), sx.S(a.Arg), sx.I(a.Dt)))
 	}
-	return sx.L(sx.S("coord"), sx.I(c.MaxAge), sx.B(c.SWR), sx.B(c.Big), sx.L(acts...), sx.B(c.NoCL), sx.B(c.Vary))
+	return sx.L(sx.S("coord"), sx.I(c.MaxAge), sx.B(c.SWR), sx.B(c.Big), sx.L(acts...), sx.B(c.NoCL), sx.B(c.Vary), sx.I(c.Force))
 }
 
 func coordCaseFromSx(v sx.V) coordCase {
 	c := coordCase{MaxAge: v.N(1).Int(), SWR: v.N(2).Bool(), Big: v.N(3).Bool(), NoCL: v.N(5).Bool(), Vary: len(v.List()) > 6 && v.N(6).Bool()}
+	if len(v.List()) > 7 {
+		c.Force = v.N(7).Int()
+	}
 	for _, a := range v.N(4).List() {
 		c.Acts = append(c.Acts, CoAct{Kind: a.N(0).Str(), I: int(a.N(1).Int()), Arg: a.N(2).Str(), Dt: a.N(3).Int()})
 	}
@@ -340,7 +344,9 @@ func (c coordCase) Run() (sx.V, error) {
 	defer inner.SetIsReplaced()
 	var st caching.Storage = &clockedStorage{inner: inner, now: now}
 	cache := caching.NewCacheWithStorages([]*caching.Storage{&st}, discardLogger, now)
-	rules, err := proxy.ParseRules(rulesJSON([]Rule{cacheRule()}), discardLogger)
+	theRule := cacheRule()
+	theRule.Force = int(c.Force)
+	rules, err := proxy.ParseRules(rulesJSON([]Rule{theRule}), discardLogger)
 	if err != nil {
 		return sx.L(), err
 	}
@@ -618,6 +624,12 @@ func coordPinned() []coordCase {
 		{MaxAge: 60, Acts: []CoAct{act("arrive", 0, "fast"), act("arrive", 1, "fast"), act("arrive", 2, "fast"), act("leave", 1, ""), act("answer", 0, "cut"), act("answer", 1, "new")}},
 		{MaxAge: 60, Acts: []CoAct{act("arrive", 0, "fast"), act("arrive", 1, "fast"), act("arrive", 2, "fast"), act("leave", 1, ""), act("answer", 0, "500"), act("answer", 1, "new")}},
 		{MaxAge: 60, Acts: []CoAct{act("arrive", 0, "fast"), act("arrive", 1, "fast"), act("leave", 0, ""), act("leave", 1, ""), act("arrive", 2, "fast"), act("answer", 1, "new"), act("answer", 2, "new")}},
+		// the rule caps the lifetime (force_revalidate): a request that arrives while the forced refresh is in flight waits for it,
+		// the origin having granted no stale-while-revalidate
+		{MaxAge: 3600, Force: 10, Acts: []CoAct{act("arrive", 0, "fast"), act("answer", 0, "new"), {Kind: "adv", Dt: 20}, act("arrive", 1, "fast"), act("arrive", 2, "fast"),
+			act("answer", 1, "new")}},
+		{MaxAge: 3600, Force: 10, Acts: []CoAct{act("arrive", 0, "fast"), act("answer", 0, "new"), {Kind: "adv", Dt: 9}, act("arrive", 1, "fast"), {Kind: "adv", Dt: 2}, act("arrive", 2, "fast"),
+			act("arrive", 3, "fast"), act("answer", 1, "304")}},
 		// the only request that waits goes away, and the fetch it waited for comes to nothing: woken, it takes the key and has
 		// nobody to answer - the key must be free for the request that comes next
 		{MaxAge: 60, Acts: []CoAct{act("arrive", 0, "fast"), act("arrive", 1, "fast"), act("leave", 1, ""), act("answer", 0, "cut"), act("arrive", 2, "fast"), act("answer", 1, "new")}},
